@@ -1,2 +1,471 @@
 (* Proofs about the models of Algo/TextIO.v (textual half of C06). *)
 From BT Require Import Base.Prelude Base.Str Base.Rose Algo.TextIO Spec.PC06Text.
+
+Local Open Scope N_scope.
+
+(* ------------------------------------------------------------------------------------------ *)
+(* generalities                                                                                *)
+
+Lemma val_eqb_refl v : val_eqb v v = true.
+Proof.
+  destruct v; cbn; auto using Z.eqb_refl, str_eqb_refl, Bool.eqb_reflx.
+Qed.
+
+Lemma attrs_eqb_refl a : attrs_eqb a a = true.
+Proof.
+  induction a as [|[k v] a IH]; cbn; [reflexivity|].
+  rewrite str_eqb_refl, val_eqb_refl, IH. reflexivity.
+Qed.
+
+Lemma tree_eqb_refl t : tree_eqb t t = true.
+Proof.
+  induction t as [g n a ks IH] using tree_ind'. cbn [tree_eqb].
+  rewrite str_eqb_refl, attrs_eqb_refl. cbn [andb].
+  induction ks as [|k ks IHk]; [reflexivity|].
+  inversion IH as [|? ? Hk Hks]; subst. rewrite Hk. cbn [andb]. apply IHk. exact Hks.
+Qed.
+
+Lemma on_last_app {A} (f : A -> A) l x : on_last f (l ++ [x]) = l ++ [f x].
+Proof.
+  induction l as [|y l IH]; [reflexivity|].
+  cbn [app on_last]. rewrite IH. destruct (l ++ [x]) eqn:E; [destruct l; discriminate|reflexivity].
+Qed.
+
+Lemma str_nodupb_names l : str_nodupb l = names_nodup l.
+Proof. induction l as [|x l IH]; cbn; [reflexivity|]. rewrite IH. reflexivity. Qed.
+
+Lemma map_tname_erase ks : map tname (map erase ks) = map tname ks.
+Proof.
+  induction ks as [|k ks IH]; [reflexivity|]. cbn [map]. rewrite IH. destruct k; reflexivity.
+Qed.
+
+Lemma all_nodes_inv p g n a ks :
+  all_nodes p (T g n a ks) = true -> p (T g n a ks) = true /\ Forall (fun k => all_nodes p k = true) ks.
+Proof.
+  cbn [all_nodes]. intros H. apply andb_true_iff in H as [H1 H2]. split; [exact H1|].
+  apply Forall_forall. intros k Hk. eapply forallb_forall in H2; eauto.
+Qed.
+
+Lemma sib_distinct_inv g n a ks :
+  sib_distinct (T g n a ks) = true ->
+  names_nodup (map tname ks) = true /\ Forall (fun k => sib_distinct k = true) ks.
+Proof.
+  cbn [sib_distinct]. intros H. apply andb_true_iff in H as [H1 H2]. split; [exact H1|].
+  apply Forall_forall. intros k Hk. eapply forallb_forall in H2; eauto.
+Qed.
+
+(* ------------------------------------------------------------------------------------------ *)
+(* Newick writer without length / attributes                                                   *)
+
+Fixpoint nw_plain (t : tree) : str :=
+  match t with
+  | T _ n _ ks =>
+      match ks with
+      | [] => serialize n
+      | _ => [40] ++ join [44] (map nw_plain ks) ++ [41] ++ serialize n
+      end
+  end.
+
+Definition cfg_plain (lsep pf asep : str) : nwcfg := NwCfg true [] lsep [] pf asep.
+
+Lemma nw_write_plain lsep pf asep isroot t :
+  nw_write (cfg_plain lsep pf asep) isroot t = Ret (nw_plain t).
+Proof.
+  revert isroot. induction t as [g n a ks IH] using tree_ind'. intros isroot.
+  cbn [nw_write nw_plain]. unfold name_str, attr_str, cfg_plain.
+  cbn [nw_inter nw_len nw_attrs is_nil orb negb andb].
+  destruct ks as [|k ks]; [rewrite app_nil_r; reflexivity|].
+  assert (Hgo : forall l,
+             Forall (fun t => forall isroot, nw_write (cfg_plain lsep pf asep) isroot t = Ret (nw_plain t)) l ->
+             (fix go (l : list tree) : res (list str) :=
+                   match l with
+                   | [] => Ret []
+                   | k0 :: r =>
+                       match nw_write (NwCfg true [] lsep [] pf asep) false k0 with
+                       | Raise e => Raise e
+                       | Ret s => match go r with Raise e => Raise e | Ret ss => Ret (s :: ss) end
+                       end
+                   end) l = Ret (map nw_plain l)).
+  { intros l Hl. induction Hl as [|x l Hx Hl IHl]; [reflexivity|].
+    fold (cfg_plain lsep pf asep). rewrite Hx. unfold cfg_plain. rewrite IHl. reflexivity. }
+  rewrite (Hgo (k :: ks) IH). rewrite app_nil_r. reflexivity.
+Qed.
+
+(* ------------------------------------------------------------------------------------------ *)
+(* Newick parser on the writer's output                                                        *)
+
+Section NewickMachine.
+  Variables la pf : str.
+
+  (* scanning state: PARSE_STRING, no current node, no pending value, not skipping *)
+  Definition St (ab cu : list tree) (be : list (list tree)) (d : Z) (ctr : nat) (cum : str) : pst :=
+    mkP ab cu be d ctr PStr false cum [] 0.
+
+  Lemma not_special_chars c :
+    memN c nw_specials = false ->
+    N.eqb c 40 = false /\ N.eqb c 41 = false /\ N.eqb c 91 = false /\ N.eqb c 93 = false /\
+    N.eqb c 61 = false /\ N.eqb c 39 = false /\ N.eqb c 58 = false /\ N.eqb c 44 = false.
+  Proof.
+    unfold memN, nw_specials. cbn [existsb]. intros H.
+    repeat (apply orb_false_iff in H as [? H]). repeat split; assumption.
+  Qed.
+
+  Lemma run_plain_chars n : forall rest ab cu be d ctr cum,
+    has_special n = false ->
+    nw_run la pf (n ++ rest) (St ab cu be d ctr cum) = nw_run la pf rest (St ab cu be d ctr (cum ++ n)).
+  Proof.
+    induction n as [|c n IH]; intros rest ab cu be d ctr cum H.
+    - rewrite app_nil_r. reflexivity.
+    - unfold has_special in H. cbn [existsb] in H. apply orb_false_iff in H as [Hc Hn].
+      destruct (not_special_chars c Hc) as (H1 & H2 & H3 & H4 & H5 & H6 & H7 & H8).
+      unfold St at 1. cbn [app nw_run p_skip]. unfold nw_step. cbv beta iota.
+      rewrite H1, H2, H3, H4, H5, H6, H7, H8. cbn [orb].
+      fold (St ab cu be d ctr (cum ++ [c])). rewrite (IH rest ab cu be d ctr (cum ++ [c]) Hn).
+      rewrite <- app_assoc. reflexivity.
+  Qed.
+
+  Lemma run_skip x : forall rest ab cu be d ctr st has cum val,
+    nw_run la pf (x ++ rest) (mkP ab cu be d ctr st has cum val (length x))
+    = nw_run la pf rest (mkP ab cu be d ctr st has cum val 0).
+  Proof.
+    induction x as [|c x IH]; intros; [reflexivity|].
+    cbn [app length nw_run p_skip set_skip]. apply IH.
+  Qed.
+
+  Lemma find_quote_app n rest : no_quote n = true -> find_quote (n ++ 39 :: rest) = Some n.
+  Proof.
+    unfold no_quote, memN, q. induction n as [|c n IH]; intros H.
+    - reflexivity.
+    - cbn [existsb] in H. apply negb_true_iff in H. apply orb_false_iff in H as [Hc Hn].
+      cbn [app find_quote]. rewrite N.eqb_sym, Hc. rewrite IH; [reflexivity|].
+      apply negb_true_iff. exact Hn.
+  Qed.
+
+  Lemma requote_id n : no_quote n = true -> requote n = n.
+  Proof.
+    unfold no_quote, memN, q, requote. induction n as [|c n IH]; intros H; [reflexivity|].
+    cbn [existsb] in H. apply negb_true_iff in H. apply orb_false_iff in H as [Hc Hn].
+    cbn [map]. rewrite N.eqb_sym, Hc. rewrite IH; [reflexivity|]. apply negb_true_iff. exact Hn.
+  Qed.
+
+  Lemma run_name n rest ab cu be d ctr :
+    no_quote n = true ->
+    nw_run la pf (serialize n ++ rest) (St ab cu be d ctr []) = nw_run la pf rest (St ab cu be d ctr n).
+  Proof.
+    intros Hq. unfold serialize. destruct (has_special n) eqn:Hs.
+    - rewrite (requote_id n Hq).
+      replace ((39 :: n ++ [39]) ++ rest) with (39 :: (n ++ [39]) ++ rest) by reflexivity.
+      unfold St at 1. cbn [nw_run p_skip]. unfold nw_step. cbv beta iota. cbn [N.eqb Pos.eqb orb].
+      rewrite <- app_assoc. cbn [app]. rewrite (find_quote_app n rest Hq). cbn [is_nil negb].
+      replace (n ++ 39 :: rest) with ((n ++ [39]) ++ rest) by (rewrite <- app_assoc; reflexivity).
+      replace (S (length n)) with (length (n ++ [39])) by (rewrite app_length; cbn; lia).
+      rewrite run_skip. reflexivity.
+    - rewrite run_plain_chars by exact Hs. reflexivity.
+  Qed.
+
+  Lemma create_plain n ctr ks cu :
+    n <> [] -> dup_names ks = false ->
+    create_node on_last la false n ctr ks cu = Ret (ctr, cu ++ [T None n [] ks]).
+  Proof.
+    intros Hn Hd. unfold create_node. destruct n as [|c n]; [contradiction|].
+    unfold attach. destruct ks as [|k ks]; [reflexivity|].
+    rewrite Hd. rewrite on_last_app. reflexivity.
+  Qed.
+
+  Lemma step_comma rest n ctr ks cu be d :
+    n <> [] -> dup_names ks = false ->
+    nw_step la pf 44 rest (St ks cu be d ctr n) = Ret (St [] (cu ++ [T None n [] ks]) be d ctr []).
+  Proof.
+    intros Hn Hd. unfold nw_step, St. cbn [N.eqb Pos.eqb orb andb].
+    rewrite (create_plain n ctr ks cu Hn Hd). reflexivity.
+  Qed.
+
+  Lemma step_close rest n ctr ks cu be d :
+    n <> [] -> dup_names ks = false ->
+    nw_step la pf 41 rest (St ks cu be d ctr n)
+    = Ret (St (cu ++ [T None n [] ks]) (hd [] be) (tl be) (d - 1) ctr []).
+  Proof.
+    intros Hn Hd. unfold nw_step, St. cbn [N.eqb Pos.eqb orb andb].
+    rewrite (create_plain n ctr ks cu Hn Hd). reflexivity.
+  Qed.
+
+  Lemma run_cons c rest ab cu be d ctr cum :
+    nw_run la pf (c :: rest) (St ab cu be d ctr cum)
+    = match nw_step la pf c rest (St ab cu be d ctr cum) with
+      | Raise e => Raise e
+      | Ret s' => nw_run la pf rest s'
+      end.
+  Proof. reflexivity. Qed.
+
+  Lemma step_open rest cu be d ctr :
+    nw_step la pf 40 rest (St [] cu be d ctr []) = Ret (St [] [] (cu :: be) (d + 1) ctr []).
+  Proof. reflexivity. Qed.
+
+  (* the guard of the round trip, per node *)
+  Definition nm_ok (t : tree) : bool := name_ok (tname t).
+  Definition tree_ok (t : tree) : Prop := all_nodes nm_ok t = true /\ sib_distinct t = true.
+
+  Lemma name_ok_inv n : name_ok n = true -> n <> [] /\ no_quote n = true.
+  Proof.
+    unfold name_ok. intros H. apply andb_true_iff in H as [H1 H2]. split; [|exact H2].
+    destruct n; [discriminate|discriminate].
+  Qed.
+
+  Lemma dup_erase ks : names_nodup (map tname ks) = true -> dup_names (map erase ks) = false.
+  Proof.
+    intros H. unfold dup_names. rewrite map_tname_erase, str_nodupb_names, H. reflexivity.
+  Qed.
+
+  (* after the text of t the machine holds t's (rebuilt) children above and t's name pending *)
+  Definition core (t : tree) : Prop :=
+    forall rest cu be d ctr,
+      nw_run la pf (nw_plain t ++ rest) (St [] cu be d ctr [])
+      = nw_run la pf rest (St (map erase (tkids t)) cu be d ctr (tname t)).
+
+  Lemma erase_unfold t : erase t = T None (tname t) [] (map erase (tkids t)).
+  Proof. destruct t; reflexivity. Qed.
+
+  Lemma forest_run ks :
+    ks <> [] ->
+    Forall core ks -> Forall tree_ok ks ->
+    forall rest cu be d ctr,
+      nw_run la pf (join [44] (map nw_plain ks) ++ 41 :: rest) (St [] cu be d ctr [])
+      = nw_run la pf rest (St (cu ++ map erase ks) (hd [] be) (tl be) (d - 1) ctr []).
+  Proof.
+    induction ks as [|k ks IH]; intros Hne Hc Hok rest cu be d ctr; [contradiction|].
+    inversion Hc as [|? ? Hk Hks]; subst. inversion Hok as [|? ? Ok_k Ok_ks]; subst.
+    destruct Ok_k as [Hnm Hsd].
+    destruct k as [g n a kk].
+    apply all_nodes_inv in Hnm as [Hn _]. unfold nm_ok in Hn. cbn [tname] in Hn.
+    apply name_ok_inv in Hn as [Hne_n _].
+    apply sib_distinct_inv in Hsd as [Hdup _]. apply dup_erase in Hdup.
+    destruct ks as [|k2 ks].
+    - cbn [map join]. rewrite (Hk (41 :: rest) cu be d ctr). cbn [tkids tname].
+      cbn [nw_run St p_skip]. fold (St (map erase kk) cu be d ctr n).
+      rewrite (step_close rest n ctr (map erase kk) cu be d Hne_n Hdup).
+      rewrite erase_unfold. reflexivity.
+    - change (map nw_plain (T g n a kk :: k2 :: ks))
+        with (nw_plain (T g n a kk) :: map nw_plain (k2 :: ks)).
+      change (join [44] (nw_plain (T g n a kk) :: map nw_plain (k2 :: ks)))
+        with (nw_plain (T g n a kk) ++ [44] ++ join [44] (map nw_plain (k2 :: ks))).
+      rewrite <- !app_assoc. rewrite (Hk _ cu be d ctr). cbn [tkids tname].
+      cbn [app nw_run St p_skip]. fold (St (map erase kk) cu be d ctr n).
+      rewrite (step_comma _ n ctr (map erase kk) cu be d Hne_n Hdup).
+      rewrite (IH ltac:(discriminate) Hks Ok_ks rest _ be d ctr).
+      rewrite <- app_assoc. reflexivity.
+  Qed.
+
+  Lemma tree_ok_kids g n a ks : tree_ok (T g n a ks) -> Forall tree_ok ks.
+  Proof.
+    intros [H1 H2]. apply all_nodes_inv in H1 as [_ H1]. apply sib_distinct_inv in H2 as [_ H2].
+    apply Forall_forall. intros k Hk. split.
+    - eapply Forall_forall in H1; eauto.
+    - eapply Forall_forall in H2; eauto.
+  Qed.
+
+  Lemma core_all t : tree_ok t -> core t.
+  Proof.
+    induction t as [g n a ks IH] using tree_ind'. intros Hok.
+    pose proof (tree_ok_kids _ _ _ _ Hok) as Hkids.
+    destruct Hok as [Hnm Hsd].
+    apply all_nodes_inv in Hnm as [Hn _]. unfold nm_ok in Hn. cbn [tname] in Hn.
+    apply name_ok_inv in Hn as [_ Hq].
+    intros rest cu be d ctr. cbn [tkids tname].
+    destruct ks as [|k ks].
+    - cbn [nw_plain map]. apply run_name. exact Hq.
+    - assert (Hcore : Forall core (k :: ks)).
+      { apply Forall_forall. intros x Hx. eapply Forall_forall in IH; eauto. apply IH.
+        eapply Forall_forall in Hkids; eauto. }
+      cbn [nw_plain]. rewrite <- !app_assoc.
+      cbn [app]. rewrite run_cons, step_open.
+      rewrite (forest_run (k :: ks) ltac:(discriminate) Hcore Hkids).
+      cbn [hd tl app]. replace (d + 1 - 1)%Z with d by lia.
+      apply run_name. exact Hq.
+  Qed.
+
+  Lemma nw_plain_nonempty t : tree_ok t -> nw_plain t <> [].
+  Proof.
+    destruct t as [g n a ks]. intros [Hnm _].
+    apply all_nodes_inv in Hnm as [Hn _]. unfold nm_ok in Hn. cbn [tname] in Hn.
+    apply name_ok_inv in Hn as [Hne _].
+    cbn [nw_plain]. destruct ks; [|discriminate].
+    unfold serialize. destruct (has_special n); [discriminate|exact Hne].
+  Qed.
+
+  Theorem nw_parse_plain t : tree_ok t -> nw_parse la pf (nw_plain t) = Ret (erase t).
+  Proof.
+    intros Hok. pose proof (nw_plain_nonempty t Hok) as Hne.
+    assert (Hp : forall s, s <> [] ->
+                 nw_parse la pf s = match nw_run la pf s p_init with
+                                    | Raise e => Raise e
+                                    | Ret st => nw_finish la st
+                                    end).
+    { intros [|c0 s0] Hs; [contradiction|reflexivity]. }
+    rewrite (Hp _ Hne). clear Hp Hne.
+    pose proof (core_all t Hok [] [] [] 1%Z 0%nat) as Hc. rewrite app_nil_r in Hc.
+    change p_init with (St [] [] [] 1 0 []). rewrite Hc. cbn [nw_run].
+    destruct t as [g n a ks]. cbn [tkids tname].
+    destruct Hok as [Hnm Hsd].
+    apply all_nodes_inv in Hnm as [Hn _]. unfold nm_ok in Hn. cbn [tname] in Hn.
+    apply name_ok_inv in Hn as [Hne _].
+    apply sib_distinct_inv in Hsd as [Hdup _]. apply dup_erase in Hdup.
+    unfold nw_finish, St. cbn [p_depth p_cur p_cum p_ctr p_above Z.eqb Pos.eqb negb].
+    rewrite (create_plain n 0%nat (map erase ks) [] Hne Hdup). reflexivity.
+  Qed.
+End NewickMachine.
+
+(* ------------------------------------------------------------------------------------------ *)
+(* The writer's text, read by the reference grammar of Spec/PC06Text.v, denotes the tree        *)
+
+Section Reader.
+  Variables la pf : str.
+
+  Definition termb (rest : str) : bool :=
+    match rest with [] => true | c :: _ => N.eqb c 44 || N.eqb c 41 end.
+
+  Lemma termb_special c r : termb (c :: r) = true -> newick_special c = true.
+  Proof.
+    cbn [termb]. intros H. apply orb_true_iff in H as [H|H]; apply N.eqb_eq in H; subst; reflexivity.
+  Qed.
+
+  Lemma span_plain n : forall rest,
+    has_special n = false -> termb rest = true ->
+    span_p (fun c => negb (newick_special c)) (n ++ rest) = (n, rest).
+  Proof.
+    induction n as [|c n IH]; intros rest Hs Ht.
+    - cbn [app]. destruct rest as [|c r]; [reflexivity|].
+      cbn [span_p]. rewrite (termb_special c r Ht). reflexivity.
+    - unfold has_special in Hs. cbn [existsb] in Hs. apply orb_false_iff in Hs as [Hc Hn].
+      cbn [app span_p]. change (newick_special c) with (memN c nw_specials). rewrite Hc. cbn [negb].
+      rewrite (IH rest Hn Ht). reflexivity.
+  Qed.
+
+  Lemma rd_quoted_app n rest : no_quote n = true -> rd_quoted (n ++ 39 :: rest) = Some (n, rest).
+  Proof.
+    unfold no_quote, memN, q. induction n as [|c n IH]; intros H.
+    - reflexivity.
+    - cbn [existsb] in H. apply negb_true_iff in H. apply orb_false_iff in H as [Hc Hn].
+      cbn [app rd_quoted]. unfold q. rewrite N.eqb_sym, Hc. rewrite IH; [reflexivity|].
+      apply negb_true_iff. exact Hn.
+  Qed.
+
+  Lemma rd_label_ser n rest :
+    no_quote n = true -> n <> [] -> termb rest = true ->
+    rd_label (serialize n ++ rest) = Some (n, rest).
+  Proof.
+    intros Hq Hne Ht. unfold serialize. destruct (has_special n) eqn:Hs.
+    - rewrite (requote_id n Hq). cbn [app rd_label]. unfold q. cbn [N.eqb Pos.eqb].
+      rewrite <- app_assoc. cbn [app]. apply rd_quoted_app. exact Hq.
+    - destruct n as [|c n]; [contradiction|].
+      pose proof Hs as Hs'. unfold has_special in Hs'. cbn [existsb] in Hs'.
+      apply orb_false_iff in Hs' as [Hc _].
+      destruct (not_special_chars c Hc) as (_ & _ & _ & _ & _ & H6 & _ & _).
+      cbn [app rd_label]. unfold q. rewrite H6.
+      change (c :: n ++ rest) with ((c :: n) ++ rest). rewrite (span_plain (c :: n) rest Hs Ht).
+      reflexivity.
+  Qed.
+
+  Lemma rd_node_plain ks n rest :
+    no_quote n = true -> n <> [] -> termb rest = true ->
+    rd_node la pf ks (serialize n ++ rest) = Some (T None n [] ks, rest).
+  Proof.
+    intros Hq Hne Ht. unfold rd_node. rewrite (rd_label_ser n rest Hq Hne Ht).
+    destruct rest as [|c r]; [reflexivity|].
+    cbn [termb] in Ht. apply orb_true_iff in Ht as [H|H]; apply N.eqb_eq in H; subst; reflexivity.
+  Qed.
+
+  Lemma ser_head n rest c r : n <> [] -> no_quote n = true -> serialize n ++ rest = c :: r -> N.eqb c 40 = false.
+  Proof.
+    intros Hne Hq. unfold serialize. destruct (has_special n) eqn:Hs.
+    - cbn [app]. intros E. inversion E; subst. reflexivity.
+    - destruct n as [|x n]; [contradiction|]. cbn [app]. intros E. inversion E; subst.
+      unfold has_special in Hs. cbn [existsb] in Hs. apply orb_false_iff in Hs as [Hc _].
+      destruct (not_special_chars c Hc) as (H1 & _). exact H1.
+  Qed.
+
+  Definition reads (t : tree) : Prop :=
+    forall fuel rest, termb rest = true -> (length (nw_plain t) < fuel)%nat ->
+      rd_tree fuel la pf (nw_plain t ++ rest) = Some (erase t, rest).
+
+  Lemma forest_reads ks :
+    ks <> [] -> Forall reads ks -> Forall tree_ok ks ->
+    forall fuel rest, (length (join [44%N] (map nw_plain ks)) + 1 < fuel)%nat ->
+      rd_forest fuel la pf (join [44] (map nw_plain ks) ++ 41 :: rest) = Some (map erase ks, rest).
+  Proof.
+    induction ks as [|k ks IH]; intros Hne Hr Hok fuel rest Hf; [contradiction|].
+    inversion Hr as [|? ? Hk Hks]; subst. inversion Hok as [|? ? Ok_k Ok_ks]; subst.
+    destruct fuel as [|f]; [lia|].
+    destruct ks as [|k2 ks].
+    - cbn [map join] in *. cbn [rd_forest].
+      rewrite (Hk f (41 :: rest) eq_refl ltac:(lia)). cbn [N.eqb Pos.eqb]. reflexivity.
+    - change (map nw_plain (k :: k2 :: ks)) with (nw_plain k :: map nw_plain (k2 :: ks)) in *.
+      change (join [44] (nw_plain k :: map nw_plain (k2 :: ks)))
+        with (nw_plain k ++ [44] ++ join [44] (map nw_plain (k2 :: ks))) in *.
+      rewrite !app_length in Hf. cbn [length] in Hf.
+      pose proof (nw_plain_nonempty k Ok_k) as Hk_ne.
+      assert (0 < length (nw_plain k))%nat by (destruct (nw_plain k); [contradiction|cbn; lia]).
+      rewrite <- !app_assoc. cbn [rd_forest].
+      rewrite (Hk f _ eq_refl ltac:(lia)). cbn [app N.eqb Pos.eqb].
+      rewrite (IH ltac:(discriminate) Hks Ok_ks f rest ltac:(lia)). reflexivity.
+  Qed.
+
+  Lemma reads_all t : tree_ok t -> reads t.
+  Proof.
+    induction t as [g n a ks IH] using tree_ind'. intros Hok.
+    pose proof (tree_ok_kids _ _ _ _ Hok) as Hkids.
+    destruct Hok as [Hnm Hsd].
+    apply all_nodes_inv in Hnm as [Hn _]. unfold nm_ok in Hn. cbn [tname] in Hn.
+    apply name_ok_inv in Hn as [Hne Hq].
+    intros fuel rest Ht Hf. destruct fuel as [|f]; [lia|].
+    destruct ks as [|k ks].
+    - cbn [nw_plain erase map rd_tree].
+      destruct (serialize n ++ rest) as [|c r] eqn:E.
+      + rewrite <- E. apply rd_node_plain; assumption.
+      + rewrite (ser_head n rest c r Hne Hq E). rewrite <- E. apply rd_node_plain; assumption.
+    - assert (Hreads : Forall reads (k :: ks)).
+      { apply Forall_forall. intros x Hx. eapply Forall_forall in IH; eauto. apply IH.
+        eapply Forall_forall in Hkids; eauto. }
+      cbn [nw_plain] in *. rewrite !app_length in Hf. cbn [length] in Hf.
+      rewrite <- !app_assoc. cbn [app rd_tree N.eqb Pos.eqb].
+      rewrite (forest_reads (k :: ks) ltac:(discriminate) Hreads Hkids f (serialize n ++ rest) ltac:(lia)).
+      rewrite (rd_node_plain (map erase (k :: ks)) n rest Hq Hne Ht). reflexivity.
+  Qed.
+
+  Theorem newick_read_plain t : tree_ok t -> newick_read la pf (nw_plain t) = Some (erase t).
+  Proof.
+    intros Hok. unfold newick_read.
+    pose proof (reads_all t Hok (S (length (nw_plain t))) [] eq_refl ltac:(lia)) as H.
+    rewrite app_nil_r in H. rewrite H. reflexivity.
+  Qed.
+End Reader.
+
+(* ------------------------------------------------------------------------------------------ *)
+(* from the spec-level guard to the proof-level guard; the views                               *)
+
+Definition opt_plain (pf : str) (b : bool) : nwopt := NwOpt true [] [] pf b.
+
+Lemma alphabet_tree_ok pf b isroot t : newick_alphabet (opt_plain pf b) isroot t = true -> tree_ok t.
+Proof.
+  unfold newick_alphabet. intros H.
+  repeat (apply andb_true_iff in H as [H ?]).
+  split; [|assumption].
+  clear - H. induction t as [g n a ks IH] using tree_ind'.
+  apply all_nodes_inv in H as [H1 H2]. cbn [all_nodes].
+  apply andb_true_iff. split.
+  - unfold node_in_alphabet in H1. apply andb_true_iff in H1 as [H1 _]. exact H1.
+  - apply forallb_forall. intros k Hk.
+    eapply Forall_forall in IH; eauto. apply IH. eapply Forall_forall in H2; eauto.
+Qed.
+
+Lemma nw_view_plain pf b isroot t : nw_view (opt_plain pf b) isroot t = erase t.
+Proof.
+  revert isroot. induction t as [g n a ks IH] using tree_ind'. intros isroot.
+  cbn [nw_view erase opt_plain o_inter o_len o_keys nilb orb flat_map app]. f_equal.
+  induction IH as [|k ks Hk Hks IHk]; [reflexivity|]. cbn [map]. rewrite Hk, IHk. reflexivity.
+Qed.
+
+Lemma sort_tree_erase t : sort_tree (erase t) = erase t.
+Proof.
+  induction t as [g n a ks IH] using tree_ind'. cbn [erase sort_tree sort_attrs fold_right]. f_equal.
+  induction IH as [|k ks Hk Hks IHk]; [reflexivity|]. cbn [map]. rewrite Hk, IHk. reflexivity.
+Qed.
